@@ -1,5 +1,11 @@
 """Driving the real xt binaries: pipes, files, wait status."""
-import os, signal, subprocess, concurrent.futures
+import os, signal, subprocess, threading, concurrent.futures
+
+
+# Held while a child is being created and while descriptors that must not leak into a sibling's child are
+# created/closed: between fork and exec a child briefly holds copies of every descriptor of the driver, and
+# a copy of the read end of a "closed" pipe lets a small write succeed instead of failing with EPIPE.
+FORK_LOCK = threading.Lock()
 
 
 def run_xt(binary, args, stdin_bytes=None, stdin_path=None, timeout=60, cwd=None, stdout=None, env=None):
@@ -8,8 +14,9 @@ def run_xt(binary, args, stdin_bytes=None, stdin_path=None, timeout=60, cwd=None
     try:
         if stdin_path is not None:
             fin = open(stdin_path, "rb")
-        p = subprocess.Popen([binary] + list(args), stdin=fin if fin else subprocess.PIPE,
-                             stdout=stdout if stdout is not None else subprocess.PIPE, stderr=subprocess.PIPE, cwd=cwd, env=env)
+        with FORK_LOCK:
+            p = subprocess.Popen([binary] + list(args), stdin=fin if fin else subprocess.PIPE,
+                                 stdout=stdout if stdout is not None else subprocess.PIPE, stderr=subprocess.PIPE, cwd=cwd, env=env)
         try:
             out, err = p.communicate(None if fin else (stdin_bytes or b""), timeout=timeout)
             to = False
